@@ -270,6 +270,21 @@ def slice_norm(t):
     return (b, f + lo, k + hi, ts)
 
 
+def carried_counter(loop_event):
+    """(name, value) of the loop-carried integer that is kept or stepped by a constant on this back edge
+    (`depth`, `count`, ...), identified by shape and not by its name; None when there is none or several."""
+    if not loop_event or loop_event[0] != "loop":
+        return None
+    cands = []
+    for nm, v in loop_event[2].items():
+        v0 = strip_wrappers(v)
+        if v0[0] == "phi" and v0[3] == nm and len(v0) > 4 and strip_wrappers(v0[4])[0] == "c" and isinstance(strip_wrappers(v0[4])[2], int):
+            cands.append((nm, v0))
+        elif v0[0] == "bin" and v0[1] in ("Add", "Sub") and strip_wrappers(v0[2])[0] == "phi" and strip_wrappers(v0[2])[3] == nm and strip_wrappers(v0[3])[0] == "c":
+            cands.append((nm, v0))
+    return cands[0] if len(cands) == 1 else None
+
+
 def returns_none(body, path):
     """agg None, or `?` on an Option in a function that returns Option"""
     r = ret_of(path)
